@@ -3115,6 +3115,15 @@ XPath::doStepPredicate(
 
 
 
+inline bool
+isRootNodeType(XalanNode::NodeType  theType)
+{
+    return theType == XalanNode::DOCUMENT_NODE ||
+           theType == XalanNode::DOCUMENT_FRAGMENT_NODE;
+}
+
+
+
 XalanNode*
 XPath::stepPattern(
             XPathExecutionContext&  executionContext,
@@ -3318,7 +3327,15 @@ XPath::stepPattern(
 
                 for(;;)
                 {
-                    score = theTester(*context, nodeType);
+                    // A step of the pattern is on the child axis, and
+                    // the root is not the child of any node, so node()
+                    // does not match it.  The step that stands for a
+                    // leading '//' is different: that is the root, or any
+                    // of its descendants.
+                    score = stepType == XPathExpression::eMATCH_ANY_ANCESTOR &&
+                            isRootNodeType(nodeType) == true ?
+                                eMatchScoreNone :
+                                theTester(*context, nodeType);
 
                     if (eMatchScoreNone != score)
                     {
@@ -3352,7 +3369,11 @@ XPath::stepPattern(
 
             const XalanNode::NodeType   nodeType = context->getNodeType();
 
-            if(nodeType != XalanNode::ATTRIBUTE_NODE)
+            // The step is on the child axis.  Attributes are not children,
+            // and the root is not the child of any node, so node() does
+            // not match them.
+            if(nodeType != XalanNode::ATTRIBUTE_NODE &&
+               isRootNodeType(nodeType) == false)
             {
                 opPos += 3;
 
